@@ -50,6 +50,7 @@ def strategy(tier):
         st.tuples(st.just('observe'), st.booleans()),
         st.tuples(st.just('minimize')),
         st.tuples(st.just('other'), d, st.integers(0, 2)),
+        st.tuples(st.just('open_commit'), i, d),
         st.tuples(st.just('foreign'), st.integers(0, 5), d, st.sampled_from(['finish', 'finish', 'abort', 'vote-abort'])),
     ).map(list)
     free = st.lists(op, min_size=3, max_size=n)
@@ -330,6 +331,8 @@ class BlobWorld:
             self.fail_commit(op[1], op[2])
         elif k == 'conflict_commit':
             self.conflict_commit()
+        elif k == 'open_commit':
+            self.open_commit(op[1], op[2])
         elif k == 'other':
             # the second connection writes a blob of its own inside its open transaction, saves it with a savepoint (or
             # two) and gives the transaction up - now, or at its next boundary: what the first connection's savepoints
@@ -515,6 +518,36 @@ class BlobWorld:
         if blob_dirty and position == 'after' and phase in ('commit', 'tpc_vote'):
             self.interesting = True
         self.after_abort('failed commit (participant %s fails in %s)' % (position, phase), files_before)
+
+    def open_commit(self, i, di):
+        """a commit while a file of the blob is still open for writing is refused (ValueError): a failed commit like the
+        others - nothing of the transaction remains"""
+        name = 'b%d' % i
+        if self.view(name) is None:
+            return
+        files_before = set(list_blob_files(self.blob_dir))
+        f = self.blob(name).open('w')
+        try:
+            f.write(DATA[di])
+            f.flush()
+            try:
+                self.tm.commit()
+            except ValueError as e:
+                if 'opened blobs' not in str(e):
+                    raise
+            else:
+                self.fail('open-commit', 'not-refused', 'commit with a blob file open for writing did not raise')
+                return
+        finally:
+            f.close()
+            del f       # (a new blob's working file lives as long as the Blob object: nothing here may keep it alive)
+        self.tm.abort()
+        # (a new blob's working file lives exactly as long as the Blob object; here the object is still held by the
+        # frames of the ValueError's traceback - a reference cycle - until the collector has run)
+        import gc
+        gc.collect()
+        self.labels.add('commit-refused-for-open-blob')
+        self.after_abort('commit refused because a blob file was open', files_before)
 
     def conflict_commit(self):
         """the blob is stored, then the store of another object of the same transaction conflicts"""
